@@ -107,6 +107,38 @@ fact('time_local_adds_offset', 'bool', coq_bool(
     has(ut, r'if\s*\(\s*std::int64_t\s*\(\s*_clockSync->clockFrequency\s*\)\s*>\s*0\s*\)') and
     has(ut, r'nsSinceEpochToBrokenDownTimeUTC\s*\(\s*sinceEpoch\s*,\s*bdt\s*\)\s*;\s*printTime\s*\(\s*out\s*,\s*bdt\s*,\s*0\s*,\s*"UTC"\s*\)') and has(ut, r'no_clock_sync\?')))
 
+# ---------------------------------------------------------------- queue (C01): memory orders and branch structure
+qw = src('include/binlog/detail/QueueWriter.hpp'); qr = src('include/binlog/detail/QueueReader.hpp'); qq = src('include/binlog/detail/Queue.hpp')
+ORD = {'relaxed': 0, 'consume': 1, 'acquire': 2, 'release': 3, 'acq_rel': 4, 'seq_cst': 5}
+def order_of(text, var, op):
+    m = re.search(r'_queue->' + var + r'\.' + op + r'\s*\(([^;]*?)\)\s*;', text, re.S)
+    if not m: return 99
+    mo = re.search(r'std::memory_order_(\w+)', m.group(1))
+    return ORD.get(mo.group(1), 99) if mo else 5      # no explicit order = seq_cst
+mx = body_of(qw, r'std::size_t\s+maximizeWriteCapacity\s*\(\s*\)')
+ew = body_of(qw, r'void\s+endWrite\s*\(\s*\)')
+br = body_of(qr, r'ReadResult\s+beginRead\s*\(\s*\)')
+er = body_of(qr, r'void\s+endRead\s*\(\s*\)')
+fact('q_max_loadW', 'N', '%d%%N' % order_of(mx, 'writeIndex', 'load'))
+fact('q_max_loadR', 'N', '%d%%N' % order_of(mx, 'readIndex', 'load'))
+fact('q_endWrite_storeW', 'N', '%d%%N' % order_of(ew, 'writeIndex', 'store'))
+fact('q_beginRead_loadW', 'N', '%d%%N' % order_of(br, 'writeIndex', 'load'))
+fact('q_beginRead_loadR', 'N', '%d%%N' % order_of(br, 'readIndex', 'load'))
+fact('q_endRead_storeR', 'N', '%d%%N' % order_of(er, 'readIndex', 'store'))
+fact('q_indices_atomic', 'bool', coq_bool(has(qq, r'std::atomic<\s*std::size_t\s*>\s+writeIndex\s*;') and has(qq, r'std::atomic<\s*std::size_t\s*>\s+readIndex\s*;')))
+fact('q_maximize_shape', 'bool', coq_bool(
+    has(mx, r'if\s*\(\s*w\s*<\s*r\s*\)\s*\{\s*_writePos\s*=\s*buffer\s*\(\s*\)\s*\+\s*w\s*;\s*_writeEnd\s*=\s*buffer\s*\(\s*\)\s*\+\s*r\s*-\s*1\s*;\s*\}') and
+    has(mx, r'rightSize\s*=\s*std::int64_t\s*\(\s*_queue->capacity\s*-\s*w\s*\)\s*;') and has(mx, r'leftSize\s*=\s*std::int64_t\s*\(\s*r\s*\)\s*-\s*1\s*;') and
+    has(mx, r'if\s*\(\s*rightSize\s*>=\s*leftSize\s*\)\s*\{\s*_writePos\s*=\s*buffer\s*\(\s*\)\s*\+\s*w\s*;\s*_writeEnd\s*=\s*buffer\s*\(\s*\)\s*\+\s*w\s*\+\s*rightSize\s*;\s*\}\s*else\s*\{\s*_queue->dataEnd\s*=\s*w\s*;\s*_writePos\s*=\s*buffer\s*\(\s*\)\s*;\s*_writeEnd\s*=\s*buffer\s*\(\s*\)\s*\+\s*leftSize\s*;\s*\}') and
+    has(mx, r'return\s+writeCapacity\s*\(\s*\)\s*;')))
+bw = body_of(qw, r'bool\s+beginWrite\s*\(')
+fact('q_beginWrite_shape', 'bool', coq_bool(has(bw, r'return\s*\(\s*size\s*<=\s*writeCapacity\s*\(\s*\)\s*\)\s*\?\s*true\s*:\s*size\s*<=\s*maximizeWriteCapacity\s*\(\s*\)\s*;')))
+fact('q_endWrite_shape', 'bool', coq_bool(has(ew, r'newW\s*=\s*std::size_t\s*\(\s*_writePos\s*-\s*buffer\s*\(\s*\)\s*\)\s*;\s*_queue->writeIndex\.store\s*\(\s*newW\s*,')))
+fact('q_beginRead_shape', 'bool', coq_bool(
+    has(br, r'_readEnd\s*=\s*w\s*;\s*if\s*\(\s*r\s*<=\s*w\s*\)\s*\{\s*return\s+ReadResult\s*\{\s*buffer\s*\(\s*\)\s*\+\s*r\s*,\s*w\s*-\s*r\s*,\s*nullptr\s*,\s*0\s*\}\s*;\s*\}') and
+    has(br, r'if\s*\(\s*r\s*<\s*_queue->dataEnd\s*\)\s*\{\s*return\s+ReadResult\s*\{\s*buffer\s*\(\s*\)\s*\+\s*r\s*,\s*_queue->dataEnd\s*-\s*r\s*,\s*buffer\s*\(\s*\)\s*,\s*w\s*\}\s*;\s*\}\s*return\s+ReadResult\s*\{\s*buffer\s*\(\s*\)\s*,\s*w\s*,\s*nullptr\s*,\s*0\s*\}\s*;')))
+fact('q_endRead_shape', 'bool', coq_bool(has(er, r'_queue->readIndex\.store\s*\(\s*_readEnd\s*,')))
+
 out = ['(* GENERATED by tools/srcfacts.py from %s -- do not edit *)' % vlib.REPO,
        'From Coq Require Import List NArith String.', 'Import ListNotations.', 'Local Open Scope string_scope.', ''] + facts + ['']
 os.makedirs(os.path.join(vlib.COQ, 'Gen'), exist_ok=True)
